@@ -70,8 +70,18 @@ def check_sequence(seq, blank='none'):
     sec = SEC
     if blank.startswith('rich'):
         sec = RICH[int(blank[4:])]
+    if blank.startswith('big-'):
+        # the main preamble (always legal at index 1 of a long sequence) has
+        # a body of n lines: every later header sits beyond line n
+        n = int(blank[4:])
+        sec = dict(SEC)
+        sec['.preamble'] = (b'#.preamble: length=%d\n' % (2 * n) +
+                            b'a\n' * n, 1 + n)
     parts = []
     for i, s in enumerate(seq):
+        if blank.startswith('big-'):
+            parts.append(sec[s][0])
+            continue
         if blank.startswith('rich'):
             parts.append(sec[s][0])
             continue
@@ -146,10 +156,24 @@ def legal_prefixes(n):
     return out
 
 
+LONG_SHAPES = [(100, 10), (10, 150), (400, 1), (60, 40)]
+
+
+def big_sizes(tier):
+    from mc.alphabets import BOUNDARY_SIZES_Q
+    out = list(BOUNDARY_SIZES_Q) + [4999, 5000, 5001, 9999, 10000, 10001,
+                                    100000, 300000]
+    if tier != 'quick':
+        out += [99999, 1000000, 1000001, 3000000]
+    return sorted(set(out))
+
+
 def plan(tier):
     pre = [p for p in legal_prefixes(6) if len(p) == 6]
     units = [('short',)] + [('tree', p) for p in pre] + [('graph',),
                                                          ('scale',)]
+    units += [('big', n) for n in big_sizes(tier)]
+    units += [('long', nch, nf) for nch, nf in LONG_SHAPES]
     return {
         'units': units,
         'rule': 'every legal prefix of section ids up to length %d (legal by '
@@ -163,7 +187,10 @@ def plan(tier):
                 'and bodies a real producer writes (encodings on containers, '
                 'indent / mimetype / dos preambles, binary / dos / UTF-16 '
                 'diffs); each is '
-                'read by the real DiffXReader; plus explicit-state closure of '
+                'read by the real DiffXReader; the same successor sweep far '
+                'into a file (after a body of 1023 .. 300000 (thorough '
+                '3000000) lines at every boundary size, and after 400 .. '
+                '4000 sections); plus explicit-state closure of '
                 'the frozen reader state. Non-trivial: >= 3 accepted '
                 'sections ending in a rejection.' % (depth_for(tier) - 1),
         'bound': 'sequence length <= %d' % depth_for(tier),
@@ -203,7 +230,44 @@ def run_unit(unit, tier):
                 visit(seq)
 
     recurse = [True]
-    if unit[0] == 'scale':
+    if unit[0] in ('big', 'long'):
+        # the order rule far into a file: (a) after a body of n lines,
+        # (b) after thousands of sections; every id after each of the last
+        # positions of a sequence that has already shown every header kind
+        if unit[0] == 'big':
+            blanks = ['big-%d' % unit[1]]
+            nch, nf = 2, 2
+        else:
+            blanks = ['none']
+            nch, nf = unit[1], unit[2]
+        seq = ['diffx', '.preamble', '.meta']
+        for c in range(nch):
+            seq += ['.change', '..preamble', '..meta']
+            for f in range(nf):
+                seq += ['..file', '...meta'] + (
+                    ['...diff'] if (c + f) % 2 else [])
+        for cut in range(max(2, len(seq) - 9), len(seq) + 1):
+            prefix = seq[:cut]
+            for s_ in IDS:
+                sq = prefix + [s_]
+                for blank in blanks:
+                    viols, ok = check_sequence(sq, blank)
+                    acc.evals += 1
+                    acc.states += 1
+                    acc.transitions += 1
+                    acc.validated += 1
+                    if not ok:
+                        acc.nontrivial += 1
+                    for key, msg in viols:
+                        acc.violation('%s:far-into-file' % key,
+                                      '%s (%s, %d sections)'
+                                      % (msg[-400:], blank, len(sq)),
+                                      {'kind': 'far', 'unit': list(unit),
+                                       'cut': cut, 'sid': s_,
+                                       'blank': blank})
+                    acc.outcome('accepted' if ok else 'rejected')
+        acc.sample({'far_into_file': list(unit)}, 1)
+    elif unit[0] == 'scale':
         # long legal sequences (many changes / files), every successor id
         # tried after each of their last 12 positions
         recurse[0] = False
@@ -270,6 +334,19 @@ def run_unit(unit, tier):
 
 
 def replay(payload):
+    if payload.get('kind') == 'far':
+        unit = payload['unit']
+        nch, nf = (2, 2) if unit[0] == 'big' else (unit[1], unit[2])
+        seq = ['diffx', '.preamble', '.meta']
+        for c in range(nch):
+            seq += ['.change', '..preamble', '..meta']
+            for f in range(nf):
+                seq += ['..file', '...meta'] + (
+                    ['...diff'] if (c + f) % 2 else [])
+        sq = seq[:payload['cut']] + [payload['sid']]
+        viols, ok = check_sequence(sq, payload['blank'])
+        return [{'key': '%s:far-into-file' % k, 'msg': m[-400:]}
+                for k, m in viols]
     if payload.get('kind') != 'seq':
         return []
     blank = payload.get('blank', 'none')
